@@ -25,7 +25,10 @@ RULE = ("three case kinds: (purity) settings built from the lattice (valid "
         "pairs for which an independent, deliberately under-approximating "
         "model finds a witness (highest common version, suite, group, "
         "signature scheme usable with the server key, key size inside the "
-        "client window) must complete a loopback handshake; (ortho) every "
+        "client window) must complete a loopback handshake, and so must "
+        "endpoints sharing an external PSK (2- or 3-element configuration "
+        "form), a PSK mode, a suite with the PSK's hash and a group, with "
+        "or without a server certificate; (ortho) every "
         "accepted value of the settings that restrict nothing shared "
         "(certificate compression lists incl. empty, psk_modes incl. empty, "
         "ticket_count, padding / heartbeat / TACK / point-format switches, "
